@@ -590,7 +590,7 @@ func nestedReaderCase(out *bufio.Writer, k Kind, rep bool, field int32, data []b
 	outer := protowire.AppendVarint(nil, 9<<3|2)
 	outer = protowire.AppendVarint(outer, uint64(len(data)))
 	outer = append(outer, data...)
-	outer = append(outer, 0x38, 0x01)
+	outer = append(outer, 0x38, 0x01, 0x40, 0x05)
 	res := ""
 	func() {
 		defer func() {
@@ -615,7 +615,16 @@ func nestedReaderCase(out *bufio.Writer, k Kind, rep bool, field int32, data []b
 		if ef, em, ok := dec.VerifErrField(); ok {
 			es = fmt.Sprintf("%d:%s", ef, errClassOf(em))
 		}
-		res = fmt.Sprintf("pf=%d rem=%d err=%s val=%s", pf, rem, es, valsString(cur))
+		// follow-up at the outer level: field 7 is a varint, a fixed32 reader must fail and stop the decoder,
+		// whatever happened inside the callback (errors are sticky, later failures are not ignored)
+		var fx uint32
+		dec.Fixed32(7, &fx)
+		pf2, _, rem2 := dec.VerifState()
+		es2 := "-"
+		if ef, em, ok := dec.VerifErrField(); ok {
+			es2 = fmt.Sprintf("%d:%s", ef, errClassOf(em))
+		}
+		res = fmt.Sprintf("pf=%d rem=%d err=%s val=%s pf2=%d rem2=%d err2=%s", pf, rem, es, valsString(cur), pf2, rem2, es2)
 	}()
 	fmt.Fprintf(out, "nreader\t%s\t%d\t%d\tx%s\t%s\t%d\t%s\n", k, b2i(rep), field, hex.EncodeToString(outer), valsString(init), wrap, res)
 }
